@@ -164,3 +164,24 @@ func VExploreTable(K int) {
 	zzv.Observe("table", len(want))
 	zzv.Cover("table.end")
 }
+
+// VScripted builds an explorer whose probe is the given function (harnesses of other packages
+// cannot set the unexported probe field), and VProbeNext runs one queued probe.
+func VScripted(probe func() (*scrape.StatisticsSeriesResult, error)) *Explore {
+	job := &scrape.JobInfo{Config: &config.ScrapeConfig{JobName: "job1"}}
+	e := New(scrape.VManagerWith("job1", job), prometheus.NewRegistry(), vLogger())
+	e.explore = func(log logrus.FieldLogger, info *scrape.JobInfo, url string) (*scrape.StatisticsSeriesResult, error) {
+		return probe()
+	}
+	return e
+}
+
+// VProbeNext takes the next queued target and probes it once; false if nothing was queued.
+func VProbeNext(e *Explore) bool {
+	if len(e.needExplore) == 0 {
+		return false
+	}
+	tar := <-e.needExplore
+	_ = e.exploreOnce(context.TODO(), tar)
+	return true
+}
